@@ -253,41 +253,45 @@ def writeTrackRow (s : Schema) (prior : TrackRow) (x : Snap) (path : Bytes) (len
 
 def blankRows : TrackRows := ⟨TrackRow.blank, [], [], none⟩
 
-/-- `create_track` (`prior = none`) / `update` (`prior = some rows`): the rows of
-the track after a successful call.  A `throw` leaves the database unchanged
-(the transaction is rolled back). -/
-def writeSnap (o : FOps) (s : Schema) (x : Snap) (prior : Option TrackRows) : Res TrackRows :=
-  match x.relativePath with
-  | none => .throw (.dj "invalid_track_snapshot")
-  | some path => do
-    let len : Option Int := x.duration.map fun d => tdivPos (Prim.s64 d) 1000
-    let lenCalc ← lengthCalculated x.sampleCount x.sampleRate
-    let bpmI ← roundedBpm x.bpm
-    let ext := getExtension (getFilename path)
-    let ts : Option Int := x.lastPlayedAt.map toTimestamp
-    let everPlayed : Option Bytes := if x.lastPlayedAt.isSome then oneText else none
-    let td : Impl.V1.Track := ⟨x.sampleRate, x.sampleCount, x.averageLoudness, x.key⟩
-    let ovw ← toOverview o x.sampleCount x.sampleRate x.waveform
-    let hires ← toHires o x.sampleCount x.sampleRate x.waveform
-    let beat : Beat := ⟨x.sampleRate, x.sampleCount.map (fun n => o.ofU64 n.toNat), x.beatgrid, x.beatgrid⟩
-    let cues := toCues x.hotCues x.mainCue
-    let loops ← toLoops x.loops
-    -- transaction
-    let p := prior.getD blankRows
-    let tr := writeTrackRow s p.track x path len lenCalc bpmI
-    let mstr := asetMany (metaBulk s x (len.map mmss) everPlayed ext) p.mstr
-    let mint := asetMany (metaIntBulk s (x.key.map Prim.s32) (x.rating.map clampRating) ts) p.mint
-    -- set_performance_data: encodes left to right, no decode-after-encode check
-    let beat' ← normBeat beat
-    let cues' ← normCues cues
-    let loops' ← normLoops loops
-    let perf : PerfRow :=
+/-- The rows after the transaction, from the values prepared before it. -/
+def assemble (s : Schema) (x : Snap) (prior : Option TrackRows) (path : Bytes) (lenCalc bpmI : Option Int)
+    (ovw hires : Wave) (beat' : Beat) (cues' : Cues) (loops' : Loops) : TrackRows :=
+  let len : Option Int := x.duration.map fun d => tdivPos (Prim.s64 d) 1000
+  let ext := getExtension (getFilename path)
+  let ts : Option Int := x.lastPlayedAt.map toTimestamp
+  let everPlayed : Option Bytes := if x.lastPlayedAt.isSome then oneText else none
+  let td : Impl.V1.Track := ⟨x.sampleRate, x.sampleCount, x.averageLoudness, x.key⟩
+  let p := prior.getD blankRows
+  { track := writeTrackRow s p.track x path len lenCalc bpmI
+    mstr := asetMany (metaBulk s x (len.map mmss) everPlayed ext) p.mstr
+    mint := asetMany (metaIntBulk s (x.key.map Prim.s32) (x.rating.map clampRating) ts) p.mint
+    perf := some
       { isAnalyzed := 1, isRendered := 0, trackData := normTrack td, hires := normHires hires,
         overview := normOvw ovw, beat := beat', cues := cues', loops := loops',
         hasSerato := some 0,
         hasRekordbox := if s.ge .s1_7_1 then some 0 else none,
-        hasTraktor := if s.ge .s1_11_1 then some 0 else none }
-    pure ⟨tr, mstr, mint, some perf⟩
+        hasTraktor := if s.ge .s1_11_1 then some 0 else none } }
+
+/-- `create_track` (`prior = none`) / `update` (`prior = some rows`): the rows of
+the track after a successful call.  A `throw` leaves the database unchanged
+(the transaction is rolled back).  Order as in the C++: the conversions before
+the transaction (`to_length_fields`, `to_bpm_fields`, `to_overview_waveform_data`,
+`to_high_res_waveform_data`, `to_loops_data`), then the statements; the blob
+encoders of `set_performance_data` run left to right (beat data, quick cues,
+loops can throw) and there is no decode-after-encode check on this path. -/
+def writeSnap (o : FOps) (s : Schema) (x : Snap) (prior : Option TrackRows) : Res TrackRows :=
+  match x.relativePath with
+  | none => .throw (.dj "invalid_track_snapshot")
+  | some path =>
+    (lengthCalculated x.sampleCount x.sampleRate).bind fun lenCalc =>
+    (roundedBpm x.bpm).bind fun bpmI =>
+    (toOverview o x.sampleCount x.sampleRate x.waveform).bind fun ovw =>
+    (toHires o x.sampleCount x.sampleRate x.waveform).bind fun hires =>
+    (toLoops x.loops).bind fun loops =>
+    (normBeat ⟨x.sampleRate, x.sampleCount.map (fun n => o.ofU64 n.toNat), x.beatgrid, x.beatgrid⟩).bind fun beat' =>
+    (normCues (toCues x.hotCues x.mainCue)).bind fun cues' =>
+    (normLoops loops).bind fun loops' =>
+    .ok (assemble s x prior path lenCalc bpmI ovw hires beat' cues' loops')
 
 /-! ### snapshot() -/
 
